@@ -150,6 +150,26 @@ func (s *dbStore) PruneState(from, to uint64) (uint64, uint64, uint64) {
 		delete(valInfosCache, common.BytesToHash(nextState.NextValidatorsInfoHash))
 	}
 
+	// discards pruning validator infos which are used by any other state that is kept
+	// (a membership may return after `to`, and states below `from` stay loadable)
+	headHeight := to
+	if head := rawdb.ReadHeadBlock(s.db); head != nil && head.Height() > headHeight {
+		headHeight = head.Height()
+	}
+	protect := func(h uint64) {
+		if st := rawdb.ReadConsensusStateHeight(s.db, h); st != nil {
+			delete(valInfosCache, common.BytesToHash(st.LastValidatorsInfoHash))
+			delete(valInfosCache, common.BytesToHash(st.ValidatorsInfoHash))
+			delete(valInfosCache, common.BytesToHash(st.NextValidatorsInfoHash))
+		}
+	}
+	for h := to + 1; h <= headHeight && len(valInfosCache) > 0; h++ {
+		protect(h)
+	}
+	for h := uint64(1); h < from && len(valInfosCache) > 0; h++ {
+		protect(h)
+	}
+
 	// delete val infos
 	for valInfoHash := range valInfosCache {
 		if valInfo := rawdb.ReadConsensusValidatorsInfo(s.db, valInfoHash); valInfo != nil {
